@@ -1,10 +1,112 @@
-//! C41 — not built yet.
+//! C41 A broken repository affects only its own subtree.
+
+use std::collections::BTreeSet;
+
+use proptest::prelude::*;
 
 use crate::core::*;
+use crate::erpki::*;
+use crate::erun::*;
+use crate::escen::*;
+use crate::pay::MItem;
 
-pub const IMPLEMENTED: bool = false;
+#[derive(serde::Serialize, serde::Deserialize, Clone, Debug)]
+pub struct Case {
+    pub sc: Scenario,
+    pub module: usize,
+    pub kind: u8,
+    pub warm: bool,
+}
 
-pub fn run(_ctx: &Ctx, _rep: &mut Report, _replay: Option<&serde_json::Value>) {
-    eprintln!("C41: check not implemented");
-    std::process::exit(2);
+fn case(words: &[u16]) -> Case {
+    let p = Profile { max_cas: 8, max_tals: 2, max_objs: 4, versions: 1, fault_16: 1, obj_faults: true, cert_faults: false, pp_faults: false, vary_cfg: true, modules: 3 };
+    let mut sc = single_run(words, &p);
+    sc.cfg.unsafe_vrps = [2u8, 1, 0][(words.first().copied().unwrap_or(0) % 3) as usize];
+    let mut d = D::new(words);
+    for _ in 0..5 {
+        d.next();
+    }
+    let module = d.below(3);
+    let kind = d.below(5) as u8;
+    let warm = d.chance(1, 2);
+    Case { sc, module, kind, warm }
+}
+
+/// CAs published in the broken module, and their descendants.
+fn affected(sc: &Scenario, module: usize) -> BTreeSet<usize> {
+    let mut res = BTreeSet::new();
+    for (i, ca) in sc.cas.iter().enumerate() {
+        if ca.module == module {
+            for d in descendants(sc, i) {
+                res.insert(d);
+            }
+        }
+    }
+    res
+}
+
+fn run_world(c: &Case, faulty: bool) -> Result<BTreeSet<MItem>, String> {
+    let mut world = World::new(&c.sc, scratch_base());
+    let step = c.sc.steps[0].clone();
+    let ex = empty_exceptions();
+    if c.warm {
+        world.publish(&step);
+        world.run(false, &ex)?;
+    }
+    world.publish(&step);
+    if faulty {
+        world.sabotage(c.module, c.kind);
+    }
+    let out = world.run(false, &ex)?;
+    Ok(out.payload.items().into_iter().collect())
+}
+
+fn prop(c: &Case, info: &mut CaseInfo) -> Verdict {
+    let sc = &c.sc;
+    let aff = affected(sc, c.module);
+    let owners = owner_map(sc);
+    let unaffected_with_payload = (0..sc.cas.len()).any(|i| !aff.contains(&i) && sc.cas[i].versions.iter().any(|v| !v.objs.is_empty()));
+    let hosts_ca_with_descendants_elsewhere = sc.cas.iter().enumerate().any(|(i, ca)| ca.module == c.module && descendants(sc, i).iter().any(|d| sc.cas[*d].module != c.module));
+    info.nontrivial = !aff.is_empty() && unaffected_with_payload;
+    info.class(format!("fault_kind_{}", c.kind));
+    info.class(if c.warm { "warm_cache" } else { "empty_cache" });
+    if hosts_ca_with_descendants_elsewhere {
+        info.class("descendants_in_other_repository");
+    }
+    let clean = match run_world(c, false) {
+        Ok(x) => x,
+        Err(e) => return Verdict::fail("C41/clean-run-failed", e),
+    };
+    let faulty = match run_world(c, true) {
+        Ok(x) => x,
+        Err(e) => return Verdict::fail("C41/run-fails-on-broken-repository", format!("module {} kind {}: {}", c.module, c.kind, e)),
+    };
+    // the affected CAs' resources (for the unsafe filter under reject): items inside them may be removed
+    let in_affected_space = |it: &MItem| -> bool {
+        match owners.get(it) {
+            Some((ca, _, _)) => aff.contains(ca),
+            None => true,
+        }
+    };
+    for it in clean.symmetric_difference(&faulty) {
+        if !in_affected_space(it) {
+            return Verdict::fail(
+                "C41/unrelated-payload-changed",
+                format!("item {:?} of CA {:?} differs between the clean and the faulty run although module {} (fault kind {}) hosts neither that CA nor an ancestor; affected CAs {:?}", it, owners.get(it), c.module, c.kind, aff),
+            );
+        }
+    }
+    Verdict::Pass
+}
+
+pub fn run(ctx: &Ctx, rep: &mut Report, replay: Option<&serde_json::Value>) {
+    rep.rule("pairs of runs over identical E-rpki trees (1-2 TALs, up to 8 CAs over 3 rsync modules) from identical pre-states (empty or warmed cache): one clean, one where a chosen module is unreachable / serves garbage / serves truncated files / withholds everything but manifests / serves files with flipped bytes; metamorphic oracle: the run succeeds and every item owned by a CA that is neither published in the broken module nor a descendant of one is served identically in both runs; non-trivial = the broken module hosts a CA and an unrelated CA with payload exists; distinct by serialised case");
+    rep.assume("slots of different CAs never overlap, so the unsafe-VRP filter can only remove items of affected CAs (C08 covers overlapping resources)");
+    ctx.shrink_iters.store(100, std::sync::atomic::Ordering::Relaxed);
+    if let Some(v) = replay {
+        let t: Tagged<Case> = serde_json::from_value(v.clone()).expect("replay");
+        run_case(ctx, rep, &t.sub, &t.case, prop);
+        return;
+    }
+    run_prop_par(ctx, rep, "pairs", ctx.tier.pick(200, 4000), 8, || genome(200).prop_map(|w| case(&w)), prop);
 }
